@@ -68,7 +68,8 @@ def generate(ws, root):
     os.makedirs(root)
     members = [bp["dir"] for bp in ws["buildpacks"] if bp["kind"] == "libcnb"]
     open(os.path.join(root, "Cargo.toml"), "w").write("[workspace]\nresolver = \"2\"\nmembers = [%s]\n" % ", ".join(f'"{m}"' for m in members))
-    open(os.path.join(root, ".ignore"), "w").write(ws["ignore"])
+    # the documented setup: every output directory is covered by an ignore file
+    open(os.path.join(root, ".ignore"), "w").write(ws["ignore"] + "rel-out/\ndist/\n")
     for bp in ws["buildpacks"]:
         d = os.path.join(root, bp["dir"])
         os.makedirs(d)
@@ -205,6 +206,15 @@ def pkgdir_of(ws, root, override=None):
     return d if os.path.isabs(d) else os.path.join(root, d)
 
 
+def resolve_pkgdir(ws, root, cwd_rel, pk):
+    """where the output must go: default <root>/packaged; a relative --package-dir is relative to the cwd"""
+    if pk is None:
+        return os.path.join(root, "packaged")
+    if os.path.isabs(pk):
+        return pk
+    return os.path.normpath(os.path.join(root, cwd_rel or "", pk))
+
+
 def invoke(ws, root, cwd_rel, release=False, package_dir_arg=None, strace_inject=None, log=None):
     cwd = os.path.join(root, cwd_rel) if cwd_rel else root
     cmd = package_cmd(ws, release, package_dir_arg)
@@ -225,7 +235,7 @@ def selected_for(ws, cwd_rel):
 
 def judge_clean(ws, root, cwd_rel, release, pkg_override, r, label):
     v = []
-    pkgdir = pkgdir_of(ws, root, pkg_override if pkg_override is None or os.path.isabs(pkg_override) else os.path.join(root, cwd_rel or "", pkg_override))
+    pkgdir = resolve_pkgdir(ws, root, cwd_rel, pkg_override)
     sel = selected_for(ws, cwd_rel)
     ambiguous = any(bp.get("ambiguous") for bp in ws["buildpacks"] if bp["id"] in closure(ws, sel))
     if ambiguous or not sel:
@@ -296,6 +306,16 @@ def seed_foreign(ws, root, pkgdir, kind):
     elif kind == "dangling-detect":
         os.makedirs(os.path.join(d, "bin"))
         os.symlink("nowhere", os.path.join(d, "bin", "detect"))
+    elif kind == "foreign-files-in-every-output-dir":
+        for bp in ws["buildpacks"]:
+            if bp["kind"] == "other":
+                continue
+            bd = os.path.join(base, bp["id"].replace("/", "_"))
+            os.makedirs(os.path.join(bd, "bin"), exist_ok=True)
+            os.makedirs(os.path.join(bd, ".libcnb-cargo", "additional-bin"), exist_ok=True)
+            for p in ("leftover.txt", "bin/build", ".libcnb-cargo/additional-bin/helper-from-earlier"):
+                open(os.path.join(bd, p), "w").write("stale")
+            os.symlink("build", os.path.join(bd, "bin", "detect"))
     elif kind == "old-composite-package-toml":
         comp = [bp for bp in ws["buildpacks"] if bp["kind"] == "composite"]
         if comp:
@@ -305,7 +325,7 @@ def seed_foreign(ws, root, pkgdir, kind):
             open(os.path.join(cd, "buildpack.toml"), "w").write("stale = true\n" * 30)
 
 
-SEEDS = ["extra-files", "dir-where-detect-goes", "file-where-bin-goes", "dangling-detect", "old-composite-package-toml"]
+SEEDS = ["foreign-files-in-every-output-dir", "extra-files", "dir-where-detect-goes", "file-where-bin-goes", "dangling-detect", "old-composite-package-toml"]
 
 
 def run(ctx):
@@ -330,11 +350,18 @@ def run(ctx):
         invocations = [("", False, ws["package_dir"])]
         for bp in ws["buildpacks"]:
             invocations.append((bp["dir"], False, ws["package_dir"] and os.path.join(root, ws["package_dir"])))
+        for bp in ws["buildpacks"]:
+            if bp["kind"] in ("libcnb", "composite") and ws["name"] in ("w1", "w2", "w5"):
+                # a relative --package-dir is relative to the invocation directory
+                invocations.append((bp["dir"], False, "rel-out"))
+                invocations.append((bp["dir"], False, "../dist"))
+        if ws["name"] in ("w1", "w2"):
+            invocations.append(("", False, "rel-out"))
         if ws["name"] in ("w1", "w4"):
             invocations.append(("", True, ws["package_dir"]))
             invocations.append(("", False, os.path.join(ctx.scratch, "outside-" + ws["name"])))
         for cwd_rel, release, pk in invocations:
-            pkgdir = pkgdir_of(ws, root, pk)
+            pkgdir = resolve_pkgdir(ws, root, cwd_rel, pk)
             shutil.rmtree(pkgdir, ignore_errors=True)
             r = invoke(ws, root, cwd_rel, release, pk)
             label = f"{ws['name']} from {cwd_rel or '<root>'}{' --release' if release else ''}{' --package-dir ' + pk if pk else ''}"
